@@ -62,8 +62,11 @@ class ListTensor(Operator):
             return e
 
         def sub_equals(exprs, *indices):
+            # Compare by value, not identity: which equal sub-expressions
+            # happen to be the same object changes when expressions are
+            # compared (see expr_equals), and must not decide the result
             sube0 = sub(exprs[0], *indices)
-            return all(sub(e, *indices) is sube0 for e in exprs[1:])
+            return all(sub(e, *indices) == sube0 for e in exprs[1:])
 
         # Simplify [v[j,0], v[j,1], ...., v[j,k]] -> v[j,:]
         if (
